@@ -145,6 +145,15 @@ public:
         }
     }
 
+    void Reset() {
+        for (auto& pending : interrupt_pending)
+            pending = false;
+        vinterrupt_pending = false;
+        vinterrupt_context_switch = false;
+        vinterrupt_address = 0;
+        idle = false;
+    }
+
     void SignalInterrupt(u32 i) {
         interrupt_pending[i] = true;
     }
@@ -2939,8 +2948,8 @@ private:
 
     std::array<std::atomic<bool>, 3> interrupt_pending{{false, false, false}};
     std::atomic<bool> vinterrupt_pending{false};
-    std::atomic<bool> vinterrupt_context_switch;
-    std::atomic<u32> vinterrupt_address;
+    std::atomic<bool> vinterrupt_context_switch{false};
+    std::atomic<u32> vinterrupt_address{0};
 
     bool idle = false;
 
